@@ -1,10 +1,15 @@
 """C10 — server-level property decided on event histories (see simcheck.py / simgen.py)."""
-import simcheck
+import simcheck, realcheck
 
 
 def run(chk):
     chk.prove("Properties_C10")
     simcheck.run_sim(chk, flavour=FLAVOUR)
+    # dozens of simultaneous connections, in the ordinary build and in the HTTP_THREAD_SAFE build (whose collections are threadsafe_hash_maps)
+    H = simcheck.crowd_histories(chk)
+    simcheck.run_sim(chk, flavour="plain", H=H, label="h_sim crowd")
+    simcheck.run_sim(chk, flavour="plain", H=H, label="h_sim crowd -DHTTP_THREAD_SAFE", extra=["-DHTTP_THREAD_SAFE"])
+    realcheck.run_reset(chk)
 
 
 replay = simcheck.replay
